@@ -220,11 +220,11 @@ func HarnessMetrics() {
 				vrt.Assert("C20.encode-ok", codec.Encode(l, &buf) == nil)
 				logs, ents, sizes = append(logs, l), append(ents, en), append(sizes, uint64(buf.Len()))
 			}
-			// a rotation is observed through the metadata: a new segment ID was handed out for a
-			// new tail (the first append into an empty log at another index re-creates the empty
-			// tail: that is a new ID but no rotation)
-			idsBefore := e.Meta.State.NextSegmentID
-			reset := m.empty() && len(e.Meta.State.Segments) > 0 && e.Meta.State.Segments[len(e.Meta.State.Segments)-1].BaseIndex != next
+			// a rotation is observed through the metadata, not through the counter: once the
+			// background goroutine has run, the append has added one segment to the list (the old
+			// tail, now sealed, plus a new tail; the base-index reset of an empty log replaces the
+			// empty tail and leaves the count alone)
+			segsBefore := len(e.Meta.State.Segments)
 			err := e.L.StoreLogs(logs)
 			vrt.Quiesce()
 			if err == nil {
@@ -238,11 +238,7 @@ func HarnessMetrics() {
 					bytesW += sz
 					encLen[next+uint64(i)] = sz
 				}
-				created := e.Meta.State.NextSegmentID - idsBefore
-				if reset {
-					created--
-				}
-				rotations += created
+				rotations += uint64(len(e.Meta.State.Segments) - segsBefore)
 			} else {
 				vrt.Assert("C20.append-ok", false)
 			}
@@ -434,10 +430,27 @@ func HarnessFault() {
 	vrt.Quiesce()
 	first, _ := e2.L.FirstIndex()
 	last, _ := e2.L.LastIndex()
+	// candidates with the recovered First/Last. Usually one; several when failed appends of
+	// DIFFERENT entries at the same index are all still "applied in full, late" candidates (a
+	// persistent failure: the caller retried index i with new contents and failed again) - then
+	// the one whose contents the recovered log actually holds is the one to compare with.
 	matched := -1
+	var same []int
 	for i := range cands {
-		if matched < 0 && first == cands[i].first() && last == cands[i].last() {
-			matched = i
+		if first == cands[i].first() && last == cands[i].last() {
+			same = append(same, i)
+		}
+	}
+	if len(same) > 0 {
+		matched = same[0]
+		if len(same) > 1 {
+			for _, i := range same {
+				if holds(e2.L, &cands[i]) {
+					matched = i
+					vrt.Reach("late-candidate-chosen-by-contents")
+					break
+				}
+			}
 		}
 	}
 	vrt.Assert("C10.reopened-state-is-admissible", matched >= 0)
@@ -451,6 +464,20 @@ func HarnessFault() {
 		}
 	}
 	vrt.Reach("fault-checked")
+}
+
+// holds reports whether the log holds exactly the model's entries (index, term, payload).
+func holds(l *wal.WAL, m *model) bool {
+	for k := range m.Ents {
+		var out raft.Log
+		if l.GetLog(m.First+uint64(k), &out) != nil {
+			return false
+		}
+		if out.Term != m.Ents[k].Term || !dataEq(out.Data, m.Ents[k].Data) {
+			return false
+		}
+	}
+	return true
 }
 
 var _ = types.ErrNotFound
